@@ -41,6 +41,13 @@ class ResiduumRatioController(NewtonController):
         orig_norm = np.linalg.norm(func.value_at(iterate, rho))
 
         theta = mid_norm / orig_norm
+
+        if theta == 0.0:
+            # the ratio underflowed / the initial residuum overflowed (single precision):
+            # same as a vanishing residuum after the first iteration
+            lamb_n = max(lamb * params.lamb_red, params.lamb_min)
+            return StepControlResult.from_step_result(mid_step, lamb_n, True)
+
         accepted = theta <= params.theta_max
 
         if accepted:
